@@ -23,6 +23,7 @@ type Obligation struct {
 
 // Gen generates the verification conditions of one function.
 type Gen struct {
+	calleeDepth int // > 0 while a callee's contract is being compiled at a call site
 	ghostRes ssa.Value // result of the built-in model a ghost-only contract is layered on
 	callLocked map[string]T // non-nil while a callee's postconditions are applied at a call site
 	prog *Program
